@@ -114,8 +114,26 @@ func verifLemmaRtpHeaderRoundTrip(h RtpHeader, buf []byte) (RtpHeader, error) {
 
 // C13: STAP-A / AP aggregation packets. Both traversals of the aggregation units end exactly at the end of the
 // payload (the first one has refused every packet whose unit sizes do not add up), never beyond it.
+// C12: a fragmentation unit is refused for a sequence gap only when the next fragment's number is not the previous
+// one plus one modulo 2^16 (a unit that straddles the 65535 -> 0 wrap is reassembled).
 //@ func (*RtpUnpackerAvcHevc).TryUnpackOne
-//@   props C13
+//@   props C13 C12
+//@   safety C13
 //@   loop 1 condexit [C13.stap.exact.size] i == len(buf)
 //@   loop 2 condexit [C13.stap.exact.copy] i == len(buf)
+//@   returns [C12.fu.contig] defined(p) && defined(prev) && p != nil && prev != nil && !result0 && (p.Packet.positionType == PositionTypeFuaMiddle || p.Packet.positionType == PositionTypeFuaEnd) ==> p.Packet.Header.Seq != prev.Packet.Header.Seq + 1
+//@ end
+
+// C12: every RTP packet of one packed frame takes the next sequence number (modulo 2^16), only the last one carries
+// the marker bit, and the fixed header written in front of the payload is the header that was filled in.
+//@ func (*RtpPacker).Pack
+//@   props C12 C05
+//@   safety C05
+//@   loop 1 step [C12.pack.seq]  h.Seq == old(r.seq) && r.seq == old(r.seq) + 1
+//@   loop 1 step [C12.pack.mark] h.Mark <= 1 && (h.Mark == 1) == (i == len(payloads)-1)
+//@   loop 1 step [C12.pack.hdr]  h.Version == 2 && h.Padding == 0 && h.Extension == 0 && h.CsrcCount == 0 && h.Ssrc == r.ssrc
+//@   loop 1 step [C12.pack.raw]  pkt.Raw[0] == 0x80 && pkt.Raw[1] == h.PacketType | h.Mark<<7 && be16(pkt.Raw, 2) == h.Seq && be32(pkt.Raw, 4) == h.Timestamp && be32(pkt.Raw, 8) == r.ssrc
+//@   loop 1 step [C12.pack.len]  len(pkt.Raw) == 12 + len(payload)
+//@   loop 1 step [C12.pack.body] int: forall j in [0, len(payload)) :: pkt.Raw[12+j] == payload[j]
+//@   loop 1 step [C12.pack.out]  len(out) == old(len(out)) + 1
 //@ end
